@@ -100,4 +100,48 @@ Proof.
     apply andb_true_iff in H as [H1 H2]. rewrite (IH x H1), (IHm H2). reflexivity.
 Qed.
 
+Lemma bytes_ltb_total a b : bytes_eqb a b = false -> bytes_ltb a b = false -> bytes_ltb b a = true.
+Proof.
+  revert b. induction a as [|x a IH]; intros [|y b]; cbn; intros H1 H2; try discriminate; try reflexivity.
+  destruct (N.ltb x y) eqn:E1; [discriminate|]. destruct (N.ltb y x) eqn:E2; [reflexivity|].
+  assert (x = y) by lia. subst. rewrite N.eqb_refl in H1. cbn in H1. apply IH; assumption.
+Qed.
+
+Lemma obj_set_sorted k v m : obj_sorted m = true -> obj_sorted (obj_set k v m) = true.
+Proof.
+  induction m as [|[k1 v1] m IH]; intros Hs; [reflexivity|]. cbn [obj_set].
+  destruct (bytes_eqb k k1) eqn:Ee.
+  - apply bytes_eqb_eq in Ee. subst. exact Hs.
+  - destruct (bytes_ltb k k1) eqn:El.
+    + cbn [obj_sorted]. rewrite El. exact Hs.
+    + assert (Hgt : bytes_ltb k1 k = true).
+      { apply bytes_ltb_total; [exact Ee | exact El]. }
+      cbn [obj_sorted] in Hs. destruct m as [|[k2 v2] m'].
+      * cbn. rewrite Hgt. reflexivity.
+      * apply andb_true_iff in Hs as [H12 Hs']. specialize (IH Hs').
+        cbn [obj_set] in *. destruct (bytes_eqb k k2) eqn:E2.
+        -- cbn [obj_sorted] in *. rewrite Hgt. exact IH.
+        -- destruct (bytes_ltb k k2) eqn:L2.
+           ++ cbn [obj_sorted] in *. rewrite Hgt. exact IH.
+           ++ cbn [obj_sorted] in *. rewrite H12. exact IH.
+Qed.
+
+
+Lemma is_json_arr l : is_json (VArr l) = true <-> Forall (fun x => is_json x = true) l.
+Proof. cbn. rewrite forallb_forall, Forall_forall. reflexivity. Qed.
+
+Lemma is_json_obj m :
+  is_json (VObj m) = true <-> Forall (fun kv => is_json (snd kv) = true) m /\ obj_sorted m = true.
+Proof. cbn. rewrite andb_true_iff, forallb_forall, Forall_forall. reflexivity. Qed.
+
+Lemma is_json_obj_set k v m :
+  is_json v = true -> is_json (VObj m) = true -> is_json (VObj (obj_set k v m)) = true.
+Proof.
+  intros Hv Hm. apply is_json_obj in Hm as [Hall Hs]. apply is_json_obj. split; [|apply obj_set_sorted; exact Hs].
+  clear Hs. induction Hall as [|[k1 v1] m H1 Hm IH]; cbn [obj_set].
+  - constructor; [exact Hv | constructor].
+  - destruct (bytes_eqb k k1); [constructor; [exact Hv | exact Hm]|].
+    destruct (bytes_ltb k k1); repeat (constructor; auto).
+Qed.
+
 End WithNum.
